@@ -572,6 +572,7 @@ struct TEntry {
     typ: u16,
     count: u64,
     /// position of the value/offset field inside the file
+    #[allow(dead_code)]
     field_pos: usize,
     /// where the value bytes are (inline field or out of line) and how many
     val_pos: usize,
@@ -823,12 +824,6 @@ fn walk_tiff(b: &[u8]) -> Result<Walked, String> {
     }
     let mut mspans = vec![];
     if let Some((ms, ml, _)) = mspan {
-        if let Some(e) = man.map(|m| m.1) {
-            if e.inline {
-                // a store of <= 4 bytes stored inline in the entry: the unit is the IFD itself
-                let _ = e;
-            }
-        }
         mspans.push((ms, ml));
     }
     Ok(Walked { units, spans: mspans, store })
@@ -934,8 +929,6 @@ struct SvgInfo {
     units: Vec<Unit>,
     /// span of the `<c2pa:manifest>` element and of its text, and the index of the unit holding it
     manifest: Option<((usize, usize), (usize, usize), usize)>,
-    /// spans of the tokens of the root start tag and of every direct child subtree: (kind, start, end)
-    root_open: Option<(usize, usize)>,
 }
 
 fn svg_parse(b: &[u8]) -> Result<SvgInfo, String> {
@@ -952,7 +945,6 @@ fn svg_parse(b: &[u8]) -> Result<SvgInfo, String> {
     let mut manifest = None;
     let mut man_elem_start = None;
     let mut man_text: Option<(usize, usize)> = None;
-    let mut root_open = None;
     let mut root_seen = false;
     for (t, s, e) in toks {
         match &t {
@@ -966,7 +958,6 @@ fn svg_parse(b: &[u8]) -> Result<SvgInfo, String> {
                         return Err(format!("svg: root element is {name}"));
                     }
                     units.push(unit("svg-open", s, e - s, s, e - s));
-                    root_open = Some((s, e));
                     if *selfc {
                         continue;
                     }
@@ -1040,7 +1031,7 @@ fn svg_parse(b: &[u8]) -> Result<SvgInfo, String> {
     if !root_seen {
         return Err("svg: no root element".into());
     }
-    Ok(SvgInfo { units, manifest, root_open })
+    Ok(SvgInfo { units, manifest })
 }
 
 fn walk_svg(b: &[u8]) -> Result<Walked, String> {
@@ -1582,6 +1573,9 @@ pub fn media_content(kind: &str, b: &[u8]) -> Result<Vec<(String, Vec<u8>)>, Str
         "svg" => {
             let info = svg_parse(b)?;
             for (i, u) in info.units.iter().enumerate() {
+                if u.kind == "bom" {
+                    continue; // an encoding signature, not content (the SDK's XML writer drops it)
+                }
                 let mut bytes = b[u.start..u.end()].to_vec();
                 if u.kind == "svg-open" {
                     // the C2PA namespace declaration is part of the embedding, not of the media
@@ -1592,10 +1586,10 @@ pub fn media_content(kind: &str, b: &[u8]) -> Result<Vec<(String, Vec<u8>)>, Str
                     if *idx == i {
                         let (rs, re) = (mspan.0 - u.start, mspan.0 + mspan.1 - u.start);
                         bytes.drain(rs..re);
-                        if bytes == b"<metadata></metadata>" {
-                            continue;
-                        }
                     }
+                }
+                if bytes == b"<metadata></metadata>" {
+                    continue; // an empty metadata element carries nothing (the SDK adds one when there is none)
                 }
                 out.push((u.kind.clone(), bytes));
             }
@@ -1648,4 +1642,117 @@ pub fn media_content(kind: &str, b: &[u8]) -> Result<Vec<(String, Vec<u8>)>, Str
         _ => {}
     }
     Ok(out)
+}
+
+/// `media_content` with the ID3v2 frames that carry encoded strings brought to one canonical form
+/// (text encoding byte 3 and UTF-8 strings): the SDK rewrites ID3 tags as v2.4 / UTF-8, which changes
+/// the frame bytes but not their meaning. Everything else is identical to `media_content`.
+pub fn media_content_normalised(kind: &str, b: &[u8]) -> Result<Vec<(String, Vec<u8>)>, String> {
+    let mut v = media_content(kind, b)?;
+    if matches!(family(kind), Some("mp3") | Some("flac")) {
+        for (name, bytes) in v.iter_mut() {
+            if let Some(id) = name.strip_prefix("ID3:") {
+                if let Some(n) = id3_normalise(id, bytes) {
+                    *bytes = n;
+                }
+            }
+        }
+    }
+    Ok(v)
+}
+
+/// Decodes one string in ID3 text encoding `enc` starting at `p`; `to_end` = not terminated.
+fn id3_string(d: &[u8], p: &mut usize, enc: u8, to_end: bool) -> Option<String> {
+    let rest = d.get(*p..)?;
+    let wide = enc == 1 || enc == 2;
+    let (raw, used) = if to_end {
+        (rest, rest.len())
+    } else if wide {
+        let mut i = 0;
+        loop {
+            if i + 2 > rest.len() {
+                return None;
+            }
+            if rest[i] == 0 && rest[i + 1] == 0 {
+                break;
+            }
+            i += 2;
+        }
+        (&rest[..i], i + 2)
+    } else {
+        let i = rest.iter().position(|c| *c == 0)?;
+        (&rest[..i], i + 1)
+    };
+    *p += used;
+    Some(match enc {
+        0 => raw.iter().map(|c| *c as char).collect(),
+        3 => String::from_utf8_lossy(raw).to_string(),
+        _ => {
+            let mut u: Vec<u16> = vec![];
+            let mut be = enc == 2;
+            let mut r = raw;
+            if enc == 1 && r.len() >= 2 {
+                if r[0] == 0xFE && r[1] == 0xFF {
+                    be = true;
+                    r = &r[2..];
+                } else if r[0] == 0xFF && r[1] == 0xFE {
+                    r = &r[2..];
+                }
+            }
+            for c in r.chunks_exact(2) {
+                u.push(if be { u16::from_be_bytes([c[0], c[1]]) } else { u16::from_le_bytes([c[0], c[1]]) });
+            }
+            String::from_utf16_lossy(&u)
+        }
+    })
+}
+
+fn id3_normalise(id: &str, d: &[u8]) -> Option<Vec<u8>> {
+    // field layout after the encoding byte: L latin-1 terminated, S encoded terminated, E encoded to end,
+    // 3 three raw bytes, 1 one raw byte, R raw rest
+    let layout: &str = match id {
+        "TXXX" | "WXXX" => "SE",
+        "COMM" | "USLT" => "3SE",
+        "APIC" => "L1SR",
+        "GEOB" => "LSSR",
+        x if x.starts_with('T') => "E",
+        _ => return None,
+    };
+    let enc = *d.first()?;
+    if enc > 3 {
+        return None;
+    }
+    let mut out = vec![3u8];
+    let mut p = 1;
+    for f in layout.chars() {
+        match f {
+            'L' => {
+                let s = id3_string(d, &mut p, 0, false)?;
+                out.extend_from_slice(s.as_bytes());
+                out.push(0);
+            }
+            'S' => {
+                let s = id3_string(d, &mut p, enc, false)?;
+                out.extend_from_slice(s.as_bytes());
+                out.push(0);
+            }
+            'E' => {
+                let s = id3_string(d, &mut p, enc, true)?;
+                out.extend_from_slice(s.trim_end_matches('\0').as_bytes());
+            }
+            '3' => {
+                out.extend_from_slice(d.get(p..p + 3)?);
+                p += 3;
+            }
+            '1' => {
+                out.push(*d.get(p)?);
+                p += 1;
+            }
+            _ => {
+                out.extend_from_slice(d.get(p..)?);
+                p = d.len();
+            }
+        }
+    }
+    Some(out)
 }
